@@ -17,14 +17,16 @@ What is proved here, strongest first:
   are related by value.  Sharing and cycles are part of this: `R` is one-to-one on cells, not on paths.  The CONVERSE
   (isomorphic ⇒ equal canonical forms) is NOT proved.
 * **T2 `roundtrip`**: the general statement is `RoundtripStatement` (below) and is NOT proved.  Proved:
+  - `roundtrip_lists_tuples_partial`: for EVERY heap made of atoms, strings, bytes, tuples and lists (≤ 1000 elements) — with
+    arbitrary sharing and arbitrary cycles (lists containing themselves, recursive tuples) — by the simulation invariant
+    between pickler memo, emitted opcodes and the partially built cells of the unpickler.  Not covered: dict, set,
+    frozenset, class and instance cells (so NOT the heaps of real `.save` files, which are mostly instances), longer lists;
   - `roundtrip_of_check`: for ONE rooted heap, if the evaluated check `roundtripB h r` (what the driver op `pickle-roundtrip`
     computes on every in-memory heap of every run) says `true`, then `dump` succeeds, `run` of its opcodes succeeds, and the
     decoded graph is isomorphic to the original (`Iso`, through T1) — so each evaluated instance carries the full conclusion;
   - `roundtrip_partial`: for EVERY heap, when the root is an atom, a string or a bytes object (the fragment "atoms; strings").
-    Containers (DAGs with sharing, cycles through instances) are covered by evaluated instances only — the examples at
-    the end (a two-cycle of instances `a.wc = b`, `b.wc = a` with a shared string; a recursive tuple; shared list) and the
-    per-run evaluation — not by a universally quantified theorem: the simulation invariant between the pickler's memo,
-    the emitted prefix and the partially built cells of the unpickler is not done.
+    Dicts, classes and instances (cycles through instances: `a.wc = b`, `b.wc = a`) are covered by evaluated instances only —
+    the examples at the end and the per-run evaluation on every real heap — not by a universally quantified theorem.
 * **T3** (proved): `run` is a total function of the opcode list; `BINGET` pushes the memoised reference itself; `MEMOIZE`
   leaves heap and stack alone; one opcode rewrites no old cell outside its `targets` (`APPEND(S)` / `SETITEM(S)` /
   `ADDITEMS`: the one container under the items; `BUILD`: the instance and its attribute dict), never shrinks the heap,
@@ -32,7 +34,9 @@ What is proved here, strongest first:
 
 Not modelled (stays validated by the harness or trusted): the C implementation `_pickle` versus `pickle.py`; `find_class`
 (that the fresh process finds the same classes by module path); calling `cls.__new__` / the reduce callable (modelled as
-"a new object that remembers how it was made"); `sys.intern` of attribute names; `__setstate__` (explicit `unsupported` — no
+"a new object that remembers how it was made"); `sys.intern` of attribute names; the interpreter's singleton strings (`""`
+and 1-character strings are handed out as singletons by the real unpickler, so their identity in a live graph is not
+preserved — found by the harness, which compares graphs modulo the identity of such strings); `__setstate__` (explicit `unsupported` — no
 pickled class of peppercompiler defines one, the harness reports it if one appears); `BINFLOAT` payload opaque (8 bytes).
 -/
 namespace Pepper.C16Pickle.Props
@@ -46,6 +50,22 @@ open Pepper.Pickle
 theorem canon_iso {h h' : Heap} {r r' : Ref} {c : Canon} (hc : canon h r = some c) (hc' : canon h' r' = some c) :
     ∃ R, Iso h r h' r' R :=
   Pepper.Pickle.canon_iso hc hc'
+
+/-- **T1, converse.**  Isomorphic rooted heaps have the same canonical form: if `R` is an isomorphism between the parts
+    reachable from `r` in `h` and from `r'` in `h'`, and `h, r` has a canonical form, then `h', r'` has the same one
+    (in particular it has one: the fuel of `reach` suffices, no reference dangles). -/
+theorem iso_canon {h h' : Heap} {r r' : Ref} {R : Ref → Ref → Prop} (iso : Iso h r h' r' R) {c : Canon}
+    (hc : canon h r = some c) : canon h' r' = some c :=
+  Pepper.Pickle.iso_canon iso hc
+
+/-- so: two rooted heaps that both have a canonical form have THE SAME one iff their reachable parts are isomorphic -/
+theorem canon_eq_iff_iso {h h' : Heap} {r r' : Ref} {c c' : Canon} (hc : canon h r = some c) (hc' : canon h' r' = some c') :
+    c = c' ↔ ∃ R, Iso h r h' r' R := by
+  constructor
+  · intro e; subst e; exact Pepper.Pickle.canon_iso hc hc'
+  · rintro ⟨R, iso⟩
+    have := Pepper.Pickle.iso_canon iso hc
+    rw [hc'] at this; cases this; rfl
 
 /-- the list `reach` returns is duplicate-free and consists of cells reachable from the root … -/
 theorem reach_sound {h : Heap} {r : Ref} {o : List Ref} (ho : reach h r = some o) : o.Nodup ∧ ∀ x ∈ o, Reach h r x :=
@@ -71,6 +91,23 @@ theorem roundtrip_of_check {h : Heap} {r : Ref} (hb : roundtripB h r = true) :
     ∃ ops h' r', dump h r = .ok ops ∧ run ops = .ok (h', r') ∧ canon h' r' = canon h r ∧ ∃ R, Iso h r h' r' R := by
   obtain ⟨ops, h', r', c, hd, hr, hc, hc'⟩ := (roundtripB_iff h r).mp hb
   exact ⟨ops, h', r', hd, hr, by rw [hc, hc'], Pepper.Pickle.canon_iso hc hc'⟩
+
+/-- **T2 for lists, tuples, strings, bytes and atoms — with ARBITRARY SHARING AND ARBITRARY CYCLES.**  For every heap all of
+    whose cells are atoms, strings, bytes (without kids), tuples, or lists of at most `batchSize` = 1000 elements
+    (`Supported`), every root on which the abstract pickler succeeds and that has a canonical form round-trips:
+    `run (dump h r) = ok (h', r')` with `canon h' r' = canon h r`.  Covers DAGs (a string or list reached twice is emitted
+    once and fetched by `BINGET`), cycles through lists (`l = [l]`, the list is memoised while still empty and filled by
+    `APPEND(S)` afterwards) and recursive tuples (`t = ([t],)`: the pickler's re-check, `POP`s and `BINGET`).
+    Proof: the simulation invariant `Sim` between the pickler's memo and the unpickler's state (`PepperProofs/Pickle.lean`),
+    one lemma per `save` case, `iso_of_sim` at `STOP`, then `iso_canon`.
+    MISSING for `RoundtripStatement`: the cases dict (needs: key equality of the unpickler never merges two keys), set /
+    frozenset (same), class (`STACK_GLOBAL`), instance (`NEWOBJ` / `REDUCE`, item batches, `BUILD` copying the state into a
+    fresh attribute dict — there the statement is only true if the state dict is referenced by nothing else), and lists
+    longer than one batch.  The invariant and the framework lemmas (`saveAll_sim`, `Sim.allocMemo`, `Sim.close`,
+    `container_post`) are the ones those cases need. -/
+theorem roundtrip_lists_tuples_partial {h : Heap} (hS : Supported h) {r : Ref} {ops : List Op} (hd : dump h r = .ok ops)
+    {c : Canon} (hc : canon h r = some c) : Roundtrip h r :=
+  roundtrip_supported hS hd hc
 
 /-- **T2, fragment "atoms; strings"** — for every heap: a root that is `None`, a bool, an int, a float, the empty tuple,
     a string or a bytes object round-trips.  MISSING for the full statement: every container kind (tuple, list, dict,
@@ -185,6 +222,25 @@ example : roundtripB exRecTuple 0 = true := by decide +kernel
 /-- a list that contains itself and one shared inner list twice -/
 def exList : Heap := #[⟨.list, [0, 1, 1, 2]⟩, ⟨.list, [2]⟩, ⟨.int 7, []⟩]
 example : roundtripB exList 0 = true := by decide +kernel
+
+/-- T2 for the list / tuple fragment: `exRecTuple` and `exList` are `Supported`, so the universally quantified theorem applies
+    to these cyclic heaps (no evaluation of the round trip involved) -/
+theorem exRecTuple_supported : Supported exRecTuple := by
+  intro i c hc
+  match i, hc with
+  | 0, hc => simp [exRecTuple] at hc; subst hc; simp [okCell]
+  | 1, hc => simp [exRecTuple] at hc; subst hc; simp [okCell, batchSize]
+  | 2, hc => simp [exRecTuple] at hc; subst hc; simp [okCell]
+  | n + 3, hc => simp [exRecTuple] at hc
+example : Roundtrip exRecTuple 0 := by
+  have hd : (dump exRecTuple 0).toOption.isSome = true := by decide +kernel
+  have hc : (canon exRecTuple 0).isSome = true := by decide +kernel
+  cases hd' : dump exRecTuple 0 with
+  | error e => rw [hd'] at hd; cases hd
+  | ok ops =>
+    cases hc' : canon exRecTuple 0 with
+    | none => rw [hc'] at hc; cases hc
+    | some c => exact roundtrip_lists_tuples_partial exRecTuple_supported hd' hc'
 
 /-- T2 fragment: atoms and strings in an arbitrary heap -/
 example : Roundtrip exCycle 3 := roundtrip_partial (c := ⟨.tuple, []⟩) (by decide +kernel) (Or.inl rfl)
